@@ -406,6 +406,8 @@ enum ND {
     Tournament(u32, u32),
     Saturation,
     Swapless(u32), // FullyRandom(n)
+    /// mapping::Linear(start, end) from a progress lens (0/1) into a generic state wrapper (0..4)
+    Linear(u8, u8, u32),
     Seq(Vec<ND>),
     While(CD, Vec<ND>),
     If(CD, Vec<ND>),
@@ -430,6 +432,27 @@ fn build_n(n: &ND) -> Box<dyn Component<P>> {
         ND::Tournament(a, b) => selection::Tournament::new(*a, *b),
         ND::Saturation => boundary::Saturation::new(),
         ND::Swapless(k) => selection::FullyRandom::new(*k),
+        ND::Linear(i, o, e) => {
+            use mahf::components::mapping::Linear;
+            use mahf::components::mutation::{MutationRate, MutationStrength, NormalMutation, UniformMutation};
+            use mahf::state::common::Progress;
+            let end = *e as f64 / 1000.0;
+            macro_rules! out {
+                ($inp:expr) => {
+                    match o % 4 {
+                        0 => Linear::new(0.0, end, $inp, ValueOf::<MutationStrength<NormalMutation>>::new()),
+                        1 => Linear::new(0.0, end, $inp, ValueOf::<MutationRate<NormalMutation>>::new()),
+                        2 => Linear::new(0.0, end, $inp, ValueOf::<MutationStrength<UniformMutation>>::new()),
+                        _ => Linear::new(0.0, end, $inp, ValueOf::<MutationRate<UniformMutation>>::new()),
+                    }
+                };
+            }
+            if i % 2 == 0 {
+                out!(ValueOf::<Progress<ValueOf<Iterations>>>::new())
+            } else {
+                out!(ValueOf::<Progress<ValueOf<Evaluations>>>::new())
+            }
+        }
         ND::Seq(v) => Block::new(v.iter().map(build_n).collect::<Vec<_>>()),
         ND::While(c, b) => Loop::new(build_c(c), b.iter().map(build_n).collect::<Vec<_>>()),
         ND::If(c, b) => Branch::new(build_c(c), b.iter().map(build_n).collect::<Vec<_>>()),
@@ -461,7 +484,7 @@ fn random_n(rng: &mut SplitMix64, depth: usize, budget: &mut usize) -> Vec<ND> {
             0 => ND::Normal(1 + rng.below(999) as u32, rng.below(1001) as u32),
             1 => ND::Tournament(1 + rng.below(20) as u32, 1 + rng.below(5) as u32),
             2 => ND::Saturation,
-            3 => ND::Swapless(rng.below(30) as u32),
+            3 => if rng.bool() { ND::Swapless(rng.below(30) as u32) } else { ND::Linear(rng.below(2) as u8, rng.below(4) as u8, rng.below(900) as u32) },
             4 => ND::Seq(random_n(rng, depth + 1, budget)),
             5 => ND::While(random_c(rng, 0), random_n(rng, depth + 1, budget)),
             6 => ND::If(random_c(rng, 0), random_n(rng, depth + 1, budget)),
@@ -537,6 +560,13 @@ fn edits_n(n: &ND) -> Vec<ND> {
         }
         ND::Saturation => out.push(ND::Swapless(0)),
         ND::Swapless(k) => out.push(ND::Swapless(k + 1)),
+        ND::Linear(i, o, e) => {
+            out.push(ND::Linear(i + 1, *o, *e));
+            for d in 1..4 {
+                out.push(ND::Linear(*i, (o + d) % 4, *e));
+            }
+            out.push(ND::Linear(*i, *o, e + 1));
+        }
         ND::Seq(v) => out.extend(edits_seq(v).into_iter().map(ND::Seq)),
         ND::While(c, b) => {
             out.extend(edits_c(c).into_iter().map(|e| ND::While(e, b.clone())));
@@ -654,6 +684,8 @@ fn classify_collision(a: &[ND], b: &[ND]) -> &'static str {
         "scope-lost"
     } else if count(&sa, "And(") != count(&sb, "And(") {
         "and-or-confused"
+    } else if count(&sa, "Linear(") > 0 && sa.len() == sb.len() {
+        "lens-target-or-parameter-value-lost"
     } else if sa.len() == sb.len() {
         "parameter-value-lost"
     } else {
